@@ -14,6 +14,7 @@ Values
   ('D', bits)               float64 by its IEEE bit pattern (int or Term)
 """
 import heapq
+import z3
 import struct
 import sys
 import time
@@ -46,7 +47,7 @@ class Frame:
 
 
 class State:
-    __slots__ = ('frames', 'heap', 'pc', 'extras', 'flags', 'dirty', 'status', 'result', 'inexact', 'nondet', 'conc', 'lastj')
+    __slots__ = ('frames', 'heap', 'pc', 'extras', 'flags', 'dirty', 'status', 'result', 'inexact', 'nondet', 'conc', 'lastj', 'raw')
 
     def fork(self):
         s = State()
@@ -62,6 +63,7 @@ class State:
         s.nondet = self.nondet
         s.conc = self.conc
         s.lastj = self.lastj
+        s.raw = self.raw
         return s
 
 
@@ -103,6 +105,7 @@ class Executor:
         self.ite_merging = True
         self.concretise_shifts = False
         self.lazy_forks = False
+        self.fx = None
         self._returned = False
 
     # ==================================================================
@@ -372,6 +375,15 @@ class Executor:
 
     def floatop(self, tok, x, y, st, pos):
         a, b = x[1], y[1]
+        if self.fx is not None and ((a.__class__ is tuple and a[0] == 'FX') or (b.__class__ is tuple and b[0] == 'FX')):
+            if b.__class__ is int and a.__class__ is tuple:
+                if tok in ('*', '/'):
+                    return self.fx.mul_const(st, x, b, tok == '/')
+                form, side = self.fx.cmp_const(x, tok, b)
+                return ('RAW', form, tuple(side))
+            if a.__class__ is int and tok == '*':
+                return self.fx.mul_const(st, y, a, False)
+            raise Unsupported('float op %s in the exact-rational model' % tok)
         if a.__class__ is tuple or b.__class__ is tuple:
             # uninterpreted literal values ('NUM', bytes): only (in)equality of identical literals is decided
             if tok in ('==', '!=') and a.__class__ is tuple and b.__class__ is tuple:
@@ -424,6 +436,8 @@ class Executor:
                 return (sgn(x, wa) & mask(wb)) if x.__class__ is int else mk('sext', wb, x, wa)
             return x if x.__class__ is int else mk('zext', wb, x)
         if ka == 'int' and kb == 'float':
+            if x.__class__ is not int and self.fx is not None and not a['signed']:
+                return self.fx.from_uint(x)
             if x.__class__ is not int:
                 return ('D', mk('i2f' if a['signed'] else 'u2f', 64, x))
             v = sgn(x, a['bits']) if a['signed'] else x
@@ -524,8 +538,8 @@ class Executor:
             # kernel mode: do not ask the solver whether each side is feasible (these are the hard
             # queries); an infeasible path only yields a vacuously true obligation later
             return st.pc, st.extras + (cond,), st.pc, st.extras + (ncond,)
-        rt = self.solver.check(st.pc, st.extras, (cond,))
-        rf = self.solver.check(st.pc, st.extras, (ncond,))
+        rt = self.solver.check(st.pc, st.extras, (cond,), st.raw)
+        rf = self.solver.check(st.pc, st.extras, (ncond,), st.raw)
         if rt == 'unknown' or rf == 'unknown':
             st.inexact = True
         pt = st.pc if rt != 'unsat' else None
@@ -595,7 +609,7 @@ class Executor:
         st.frames = []
         self.stats['terminals'] += 1
         rkey = self.canon_value(st, st.result) if st.status == 'ok' else st.result
-        key = (st.status, rkey, st.extras, st.flags, st.inexact, st.nondet)
+        key = (st.status, rkey, st.extras, st.flags, st.inexact, st.nondet, tuple([r.get_id() for r in st.raw]))
         e = self.terminals.get(key)
         if e is None:
             self.terminals[key] = st
@@ -693,12 +707,12 @@ class Executor:
 
     def state_key(self, st):
         shape, values = self._roots(st)
-        return (shape, self.canon_values(st, values), st.extras, st.flags, st.inexact, st.nondet)
+        return (shape, self.canon_values(st, values), st.extras, st.flags, st.inexact, st.nondet, tuple([r.get_id() for r in st.raw]))
 
     def loose_key(self, st):
         shape, values = self._roots(st)
         cv, queue = self.canon_values(st, values, loose=True, want_queue=True)
-        return (shape, cv, st.extras, st.flags, st.inexact, st.nondet), queue
+        return (shape, cv, st.extras, st.flags, st.inexact, st.nondet, tuple([r.get_id() for r in st.raw])), queue
 
     # ------------------------------------------------------------------
     def _project(self, node, j):
@@ -979,6 +993,16 @@ class Executor:
             if c is False:
                 self.goto(st, fr, succs[1])
                 return True
+            if c.__class__ is tuple and c[0] == 'RAW':
+                # condition given directly as an integer-arithmetic formula (exact-rational float model)
+                other = st.fork()
+                other.raw = other.raw + c[2] + (z3.Not(c[1]),)
+                self.goto(other, other.frames[-1], succs[1])
+                self.pending_forks.append(other)
+                self.stats['forks'] += 1
+                st.raw = st.raw + c[2] + (c[1],)
+                self.goto(st, fr, succs[0])
+                return True
             pt, et, pf, ef = self.split(st, c)
             if pt is not None and pf is not None:
                 other = st.fork()
@@ -1018,6 +1042,9 @@ class Executor:
                 return None
             if tok == '-':
                 if t['kind'] == 'float':
+                    if x[1].__class__ is tuple and x[1][0] == 'FX':
+                        env[ins['name']] = self.fx.neg(x)
+                        return None
                     if x[1].__class__ is int:
                         env[ins['name']] = ('D', x[1] ^ (1 << 63))
                     else:
@@ -1293,7 +1320,7 @@ class Executor:
             alts = []
             blocked = []
             while True:
-                r = self.solver.check(st.pc, st.extras, tuple(blocked))
+                r = self.solver.check(st.pc, st.extras, tuple(blocked), st.raw)
                 if r != 'sat':
                     if r == 'unknown':
                         st.inexact = True
@@ -1709,6 +1736,7 @@ class Executor:
         st.nondet = ()
         st.conc = ()
         st.lastj = None
+        st.raw = ()
         for g, info in sorted(self.prog.globals.items()):
             z = self.prog.zero(info['type'])
             if info.get('foreign') and self.prog.types[info['type']]['kind'] == 'iface':
@@ -1782,6 +1810,7 @@ class Executor:
         st.nondet = ()
         st.conc = ()
         st.lastj = None
+        st.raw = ()
         return st
 
     def freeze(self):
